@@ -533,6 +533,19 @@ example : (match getMiniHTML multiToks with
 example : (match getFormattedHTML (.int 1) multiToks with
     | some r => okIs r "<!doctype html>\na \n<b >x\n</b>&amp;\n<br />"
     | none => false) = true := by decide +kernel
+/-- `getFormattedHTML_is_format_of_getHTML` on the raw-text document (pretty class), and `pskel_refines_cskel`'s
+    hypothesis on its tree -/
+example : ∃ html toks', Plain.html rawToks = .ok html ∧ lexStrict html = some toks' ∧
+    getFormattedHTML .dflt rawToks = some (format (mkCfg .pretty .dflt false) (toks'.map Tok.ofToken)) :=
+  let ⟨html, toks', h1, h2, h3, _⟩ := getFormattedHTML_is_format_of_getHTML (mkCfg .pretty .dflt false) rawToks
+    ⟨[], some rawTree.toNode, some (str "DOCTYPE html"), 0, 0⟩ (by rfl) _ _ _ _ rfl (by decide)
+    (by simp only [FNode.Strict, StrictL]; decide) (by decide)
+    (by
+      have hn : str "div" ≠ wrapper := by decide
+      simp only [plainBlocks, hn, if_false, FNode.NoWrapper, NoWrapperL]; decide)
+  ⟨html, toks', h1, h2, h3⟩
+example : RawData rawTree.toNode := rawData_strict _ (by simp only [rawTree, FNode.Strict, StrictL]; decide)
+
 /-- the output texts in question -/
 example : okIs (format (mkCfg .slim (.int 4) true) multiToks)
     "<!doctype html>\na \n<b>x\n</b>&amp;\n<br/>" = true := by decide
